@@ -225,6 +225,21 @@ class Fn:
                     out.append((b, s))
         return out
 
+    def natural_loop(self, src, head):
+        """blocks of the natural loop of the back edge src -> head"""
+        body = {head, src}
+        work = [src]
+        pred = self.pred
+        while work:
+            x = work.pop()
+            if x == head:
+                continue
+            for p_ in pred[x]:
+                if p_ not in body:
+                    body.add(p_)
+                    work.append(p_)
+        return body
+
     def loc(self, b, i=None):
         blk = self.blocks[b]
         if i is None or i >= len(blk.stmts):
